@@ -137,6 +137,18 @@ HAND_TEXTS = [
     ("maybe-unsized-parameter-tail", "#[derive(::educe::Educe)]\n#[educe(Debug, PartialEq, Hash)]\npub struct Ty<T: ?Sized> {\n    pub a: u8,\n    pub b: T,\n}\n"
                                      "#[derive(::educe::Educe)]\n#[educe(Debug(named_field = false), PartialEq, PartialOrd)]\npub struct Ty2<'a, T> where T: ?Sized + 'a {\n    pub a: &'a u8,\n    pub b: T,\n}\n"
                                      "#[derive(::educe::Educe)]\n#[educe(Debug)]\npub struct Ty3<T: ?Sized>(pub u8, pub T);\n"),
+    # (round 8)
+    ("maybe-unsized-in-a-later-predicate", "#[derive(::educe::Educe)]\n#[educe(Debug, PartialEq)]\npub struct Ty<T> where T: ::core::fmt::Debug, T: ?Sized {\n    pub id: u8,\n    pub tail: T,\n}\n"
+                                           "#[derive(::educe::Educe)]\n#[educe(Debug)]\npub struct Ty2<T: ?Sized>(pub u8, pub r#T);\n"
+                                           "#[derive(::educe::Educe)]\n#[educe(Debug)]\npub struct Ty3<T>(pub u8, pub T) where T: ::core::marker::Send, T: ::core::marker::Sync + ?Sized;\n"),
+    ("deref-dyn-lifetime-not-last", "pub trait Ob {}\n#[derive(::educe::Educe)]\n#[educe(Deref)]\npub struct Ty<'a, 'b>(pub &'a (dyn Ob + 'b + Send));\n"
+                                    "#[derive(::educe::Educe)]\n#[educe(Deref, DerefMut)]\npub struct Ty2<'a, 'b>(pub u8, #[educe(Deref, DerefMut)] pub &'a mut (dyn 'b + Ob));\n"
+                                    "#[derive(::educe::Educe)]\n#[educe(Deref)]\npub enum Ty3<'a, 'b> {\n    V(&'a (dyn Send + 'b + Ob + Sync)),\n}\n"),
+    ("braced-const-arguments", "#![allow(unused_braces)]\npub struct Lanes<const N: usize>(pub [u8; N]);\n"
+                               "impl ::core::default::Default for Lanes<2> { fn default() -> Self { Lanes([0; 2]) } }\n"
+                               "impl ::core::clone::Clone for Lanes<2> { fn clone(&self) -> Self { Lanes(self.0) } }\n"
+                               "#[derive(::educe::Educe)]\n#[educe(Default, Clone)]\npub struct Ty<const N: usize> {\n"
+                               "    pub lanes: Lanes<{ N }>,\n    pub tag: u8,\n}\n"),
     ("two-lifetimes-no-parameter", "#[derive(::educe::Educe)]\n#[educe(Debug, Clone, PartialEq, Eq, PartialOrd, Ord, Hash)]\n"
                                    "pub struct Ty<'a, 'b> {\n    pub a: &'a str,\n    pub b: &'b str,\n}\n"),
 ]
@@ -242,7 +254,7 @@ def run_cases(chk, cases, name="c01", full=False, edition15=False):
     # D2 accept/refuse
     # (definitions written through macro_rules!, or followed by a hand-written impl, cannot be fed to the in-process
     # expansion, which takes one item: rustc is their only judge)
-    d2 = B.run_inproc([(cid, text.replace("::educe::Educe", "Educe")) for cid, td, text in cases if "macro_rules!" not in text and "\nimpl" not in text and not text.startswith(("pub fn ", "pub type ", "pub struct Opaque", "pub trait ")) and text.count("::educe::Educe") == 1],
+    d2 = B.run_inproc([(cid, text.replace("::educe::Educe", "Educe")) for cid, td, text in cases if "macro_rules!" not in text and "\nimpl" not in text and not text.startswith(("pub fn ", "pub type ", "pub struct Opaque", "pub trait ", "#![")) and text.count("::educe::Educe") == 1],
                       items=False, full=full)
     nb = max(1, min(NCPU, len(cases) // 40 or 1))
     shards = H.shard(cases, nb)
